@@ -144,6 +144,7 @@ def classify(b, run):
                     item["piece"] = loc[2]
                 elif loc[0] == "code" and item["piece"] is None:
                     item["piece"] = loc[1]
+                    item["code_off"] = loc[2]
             run.infra_items = getattr(run, "infra_items", []) + [item]
             continue
         spans = d.get("spans", [])
